@@ -188,13 +188,13 @@ PROPS = {
     "C08": {"module": "Asts.Props.C08", "assumptions": ["headline C08_monitor_true_on_model: names are unique in the revision store (one API namespace; the monitor looks revisions up by name)", "fuel of the collision loop: nameOf template is injective on |store|+1 consecutive collision counts (otherwise the Go loop could spin; stated as fuel_never_exhausted)"], "runs": [sy(proj=proj_sync_revs)], "rule": SY_RULE},
     "C09": {"module": "Asts.Props.C09", "extra_modules": ["Asts.Props.Glue"], "assumptions": ["headline C09_reported: object names contain no colon (Kubernetes names never do) and the fault plan injects nothing into pod-control calls; faults on pod-control calls are covered by reconcile_hit_err / reconcile_err_iff_last_hit at the Faults level, by reported_any_plan for every other call, and by the engines (the model translates only first-occurrence pod faults)", "recovery (same final state once calls stop failing) is C02 from the state left behind: the world engine applies error faults and crashes to round 1 and monitors C09.recovers"], "runs": [sy(proj=proj_sync_all), wo(quick=1500, proj=proj_world_final)], "rule": SY_RULE + " || " + WORLD_RULE},
     "C10": {"module": "Asts.Props.C10", "assumptions": ["C10_revs: names are unique in the revision store (one API namespace; the monitor looks a written revision up by name)", "C10_pods: pod names are unique; the ordinal recorded for a pod is the one its name shows; every pod the set may claim (member, matching, not controlled by another owner) has its canonical name S-<ordinal> -- without it the identity fix of a zero-padded claimed pod (web-03) addresses its Update to web-3, which may be another owner's pod (upstream quirk, example exQuirk in Props/C10.lean; the run-time monitor carries the same precondition)", "'objects read from caches are left unmodified' is Go aliasing: monitored by the engine (C10.cache: deep comparison of every cached object before / after each sync), not proved"], "runs": [sy(proj=proj_sync_owner)], "rule": SY_RULE},
-    "C11": {"module": "Asts.Props.C11", "assumptions": ["C11_deleting (store half): names are unique in the revision store (the monitor looks every input revision up by name; example exDup in Props/C11.lean)", "'resumes and converges to the same result as if it had never been paused': a paused round changes nothing in the API state (paused_round), so un-pausing resumes from the same state and C02 applies"], "runs": [sy(proj=proj_sync_c11)], "rule": SY_RULE},
+    "C11": {"module": "Asts.Props.C11", "extra_modules": ["Asts.Props.Glue2"], "assumptions": ["C11_deleting (store half): names are unique in the revision store (the monitor looks every input revision up by name; example exDup in Props/C11.lean)", "'resumes and converges to the same result as if it had never been paused': a paused round changes nothing in the API state (paused_round), so un-pausing resumes from the same state and C02 applies"], "runs": [sy(proj=proj_sync_c11)], "rule": SY_RULE},
     "C13": {"module": "Asts.Props.C13", "assumptions": ["headline C13_monitor_true_on_model: store names distinct, pod names distinct, no colon in a store or pod name (Kubernetes names never contain one)", "revisionHistoryLimit present (the CRD defaults it; nil is the modelled panic of truncateHistory, unreachable for admitted objects)"], "runs": [sy(proj=proj_sync_history)], "rule": SY_RULE},
     "C03": {"module": "Asts.Props.C03", "extra_modules": ["Asts.Props.Glue"], "runs": [rc(proj=proj_deletes), sy(quick=5000, thorough=60000, proj=proj_sync_pods)], "rule": RC_RULE + SY_L1},
-    "C04": {"module": "Asts.Props.C04", "runs": [rc(proj=proj_creates), sy(quick=5000, thorough=60000, proj=proj_sync_pods)], "rule": RC_RULE + SY_L1},
+    "C04": {"module": "Asts.Props.C04", "extra_modules": ["Asts.Props.Glue2"], "runs": [rc(proj=proj_creates), sy(quick=5000, thorough=60000, proj=proj_sync_pods)], "rule": RC_RULE + SY_L1},
     "C05": {"module": "Asts.Props.C05", "extra_modules": ["Asts.Props.Glue"], "runs": [rc(proj=proj_create_delete), sy(quick=5000, thorough=60000, proj=proj_sync_pods)], "rule": RC_RULE + SY_L1},
     "C07": {"module": "Asts.Props.C07", "runs": [rc(proj=proj_create_delete), sy(quick=5000, thorough=60000, proj=proj_sync_pods)], "rule": RC_RULE + SY_L1},
-    "C12": {"module": "Asts.Props.C12", "runs": [rc(proj=proj_status), sy(quick=6000, proj=lambda c, o: o.get("status")), wo(quick=1200, proj=proj_world_final)],
+    "C12": {"module": "Asts.Props.C12", "extra_modules": ["Asts.Props.Glue2"], "runs": [rc(proj=proj_status), sy(quick=6000, proj=lambda c, o: o.get("status")), wo(quick=1200, proj=proj_world_final)],
             "rule": RC_RULE + " || " + SY_RULE + " || " + WORLD_RULE,
             "assumptions": ["bounds clause: every pod object of the snapshot carries a phase (the API server stamps Pending on create); "
                             "a phase-less pod outside the desired set drives currentReplicas to -1 in the model (example in Props/C12.lean)",
